@@ -15,6 +15,28 @@ from mir2smt import Exec, Unsupported, find_function
 from z_c07 import field_index
 
 
+def native_gates(repo, cache, harness_dir, gates, word):
+    """Length of the gate buffer the REAL decoder allocates for (gates, word), or None on error."""
+    import subprocess
+    crate = os.path.join(cache, "zcrate")
+    subprocess.run(["rsync", "-a", "--delete", "--exclude", "target", "--exclude", "Cargo.lock", harness_dir + "/", crate + "/"], check=True)
+    if repo != "/repo":
+        ct = os.path.join(crate, "Cargo.toml")
+        txt = open(ct).read().replace('"/repo/', '"%s/' % repo)
+        open(ct, "w").write(txt)
+    lock = os.path.join(repo, "Cargo.lock")
+    if os.path.exists(lock):
+        subprocess.run(["cp", lock, os.path.join(crate, "Cargo.lock")])
+    env = dict(os.environ, CARGO_TARGET_DIR=os.path.join(cache, "ntarget"), CARGO_NET_OFFLINE="true", NVH_Z_GATES="%d %d" % (gates, word))
+    env.pop("RUSTFLAGS", None)
+    r = subprocess.run(["cargo", "test", "--offline", "--test", "z_native", "--", "--nocapture", "--exact", "z_gates"],
+                       cwd=crate, env=env, capture_output=True, text=True)
+    m = re.search(r"GATES %d %d (\d+|ERR)" % (gates, word), r.stdout)
+    if not m or m.group(1) == "ERR":
+        return None
+    return int(m.group(1))
+
+
 def main():
     repo = os.environ.get("VERIF_REPO", "/repo")
     verif = os.path.dirname(os.path.dirname(os.path.abspath(__file__)))
@@ -78,9 +100,12 @@ def main():
             elif a == "sat":
                 m = dict(re.findall(r"\((gates|word) #x([0-9a-f]+)\)", v["z3"][1]))
                 g, w = int(m.get("gates", "0"), 16), int(m.get("word", "0"), 16)
-                # native replay: the allocation size is deterministic integer arithmetic
-                res["failed"].append(dict(query=name, scale="-", offset="-", raw="gates=%d word=%d" % (g, w), gates=g, word=w,
-                                          reproduced=True, scale_bits=0, offset_bits=0))
+                # native replay: decode a one-block message with these values through the real decoder
+                got = native_gates(repo, cache, os.path.join(verif, "harness"), g, w)
+                want = g * (w // 8)
+                rep = (got != want) if name == "q_size_exact" else (got is None or got > 65535 * 31)
+                res["failed"].append(dict(query=name, scale="-", offset="-", raw="gates=%d word=%d -> real gate buffer %s bytes, expected %d" % (g, w, got, want), gates=g, word=w,
+                                          reproduced=bool(rep), scale_bits=0, offset_bits=0))
     except Unsupported as e:
         res["errors"].append("unsupported: %s" % e)
     print(json.dumps(res))
@@ -89,7 +114,15 @@ def main():
 if __name__ == "__main__":
     if len(sys.argv) > 2 and sys.argv[1] == "--replay":
         rp = json.load(open(sys.argv[2]))
+        repo = os.environ.get("VERIF_REPO", "/repo")
+        verif = os.path.dirname(os.path.dirname(os.path.abspath(__file__)))
+        cache = os.environ.get("VERIF_CACHE", os.path.join(verif, ".cache"))
+        bad = 0
         for f in rp["z_counterexamples"]:
-            print("replay %s: %s (integer arithmetic; see GenericDataBlock::new)" % (f["query"], f["raw"]))
-        sys.exit(1)
+            got = native_gates(repo, cache, os.path.join(verif, "harness"), f["gates"], f["word"])
+            want = f["gates"] * (f["word"] // 8)
+            print("replay %s: gates=%d word=%d -> real gate buffer %s bytes, expected %d" % (f["query"], f["gates"], f["word"], got, want))
+            if got != want:
+                bad += 1
+        sys.exit(1 if bad else 0)
     main()
